@@ -14,6 +14,11 @@ def hook_commits():
     return [l.split()[0] for l in out.splitlines() if "verif hook" in l]
 
 CHECKS = {
+ "C13": dict(cat="fault_enumeration", design="DESIGN.md section 6 C13",
+   text="For seeded histories and each target operation a twin child process traces the N mutating file-system calls of the operation; for every crash point k<=N (and tear offsets of writes) a crash child runs the same operation on a byte-identical copy and is killed with _exit inside the k-th interposed libc call after j bytes; the orchestrator then opens the crashed directory the normal way: sign-in must succeed, every event log must equal its before- or after-state, every folder must equal the replay of its log and its persisted vault. Both backends (SQLite's own journal/WAL writes are crash points too).",
+   note="Process crash, not power loss. The unchanged tree violates the property broadly (no atomic commit across vault and log, in-place rewrites); the root causes are listed as known findings by (backend, class) pattern, so the check reports classes that do not occur today (e.g. emptied / missing / unreadable logs, sqlite accounts that no longer open). Merge application and server-side storage are not crashed yet.",
+   tech="deterministic simulation: crash-point enumeration by libc interposition (_exit at the k-th mutating call, torn writes), twin run oracle"),
+
  "C10": dict(cat="exploration", design="DESIGN.md section 6 C10",
    text="Single-device histories with re-keying on both backends, all ciphers and KDFs; monitors: nonce multiset over every AEAD blob ever stored, after every step; fault enumeration on stored blobs at the end: every blob decrypts under the folder key, 14 mutations per blob (nonce / ciphertext / tag bit flips, truncation, extension, tag removal, swaps with another blob's nonce or ciphertext) must fail; other folders' passwords must not verify, same password + fresh salt must not decrypt; stored bytes flipped on disk / in sqlite columns and read back through the public API after a restart must yield an error.",
    note="X25519 shared folders are not generated. Nonce reuse is detected as 'same nonce, different ciphertext' (identical (nonce, ciphertext) pairs are legitimate copies of one encryption). Sampling only.",
